@@ -12,6 +12,7 @@ let int_of_z = function Z0 -> 0 | Zpos p -> int_of_pos p | Zneg p -> - (int_of_p
 let rec nat_of_int i = if i <= 0 then O else S (nat_of_int (i - 1))
 let split c s = String.split_on_char c s
 let gids s = List.map (fun x -> n_of_int (int_of_string x)) (List.filter (fun x -> x <> "") (split '.' s))
+let nglyphs = ref 0
 let parse_act a =
   match a.[0] with
   | 'G' -> APutGlyph (n_of_int (int_of_string (String.sub a 1 (String.length a - 1))))
@@ -27,6 +28,7 @@ let parse_act a =
   | 'P' | 'W' -> let u = String.index a '_' in
            let x = z_of_int (int_of_string (String.sub a 1 (u - 1))) and y = z_of_int (int_of_string (String.sub a (u + 1) (String.length a - u - 1))) in
            if a.[0] = 'P' then AAttPt (x, y) else AWithPt (x, y)
+  | 'O' -> AAssoc (List.map (fun x -> z_of_int (int_of_string x)) (List.filter (fun x -> x <> "") (split '_' (String.sub a 1 (String.length a - 1)))))
   | 'S' -> let i = String.index a 'i' and o = String.index a 'o' in
            APutSubs (z_of_int (int_of_string (String.sub a 1 (i - 1))), gids (String.sub a (i + 1) (o - i - 1)), gids (String.sub a (o + 1) (String.length a - o - 1)))
   | _ -> failwith "act"
@@ -44,12 +46,19 @@ let parse_rule r =
                  (* c<item><l|g|e><value> *)
                  (* c<item><l|g|e><value>[u<user attr>] *)
                  let k = ref 1 in while !k < String.length c && c.[!k] >= '0' && c.[!k] <= '9' do incr k done;
-                 let (vs, us) = (match String.index_opt c 'u' with
-                                 | Some u -> (String.sub c (!k + 1) (u - !k - 1), Some (nat_of_int (int_of_string (String.sub c (u + 1) (String.length c - u - 1)))))
-                                 | None -> (String.sub c (!k + 1) (String.length c - !k - 1), None)) in
+                 (* optional suffix: u<user attr> | a<glyph attr> | k<constant (a feature value of the segment)> *)
+                 let suf = ref None in
+                 String.iteri (fun i ch -> if i > !k + 1 && !suf = None && (ch = 'u' || ch = 'a' || ch = 'k') then suf := Some (i, ch)) c;
+                 let (vs, tail) = (match !suf with
+                                   | Some (i, ch) -> (String.sub c (!k + 1) (i - !k - 1), Some (ch, String.sub c (i + 1) (String.length c - i - 1)))
+                                   | None -> (String.sub c (!k + 1) (String.length c - !k - 1), None)) in
+                 let col attr = List.init !nglyphs (fun g -> (n_of_int g, z_of_int (if attr >= 4 && attr < 8 then ((g * 7 + attr * 13) mod 23) - 5 else 0))) in
                  Some { c_item = nat_of_int (int_of_string (String.sub c 1 (!k - 1)));
                         c_cmp = (match c.[!k] with 'l' -> CLt | 'g' -> CGt | _ -> CEq);
-                        c_val = z_of_int (int_of_string vs); c_user = us }
+                        c_val = z_of_int (int_of_string vs);
+                        c_user = (match tail with Some ('u', x) -> Some (nat_of_int (int_of_string x)) | _ -> None);
+                        c_gattr = (match tail with Some ('a', x) -> Some (col (int_of_string x)) | _ -> None);
+                        c_const = (match tail with Some ('k', x) -> Some (z_of_int (int_of_string x)) | _ -> None) }
                | _ -> None) }
   | _ -> failwith "rule"
 let parse_pass p = match split ':' p with [ml; rs] -> (nat_of_int (int_of_string ml), List.map parse_rule (split ';' rs)) | _ -> failwith "pass"
@@ -59,8 +68,9 @@ let () =
     (match List.filter (fun s -> s <> "") (split ' ' line) with
      | [id; "gdl"; nsub; prog; advs; input] ->
        (try
-         let passes = List.map parse_pass (split '/' prog) in
          let at = Array.of_list (List.map int_of_string (split ',' advs)) in
+         nglyphs := Array.length at;
+         let passes = List.map parse_pass (split '/' prog) in
          let adv g = let i = int_of_n g in z_of_int (if i < Array.length at then at.(i) else 0) in
          let l0 = List.map (fun x -> let g = n_of_int (int_of_string x) in mkslot g (adv g) Z0) (List.filter (fun x -> x <> "") (split ',' input)) in
          (match run_passes_adj adv (nat_of_int (int_of_string nsub)) passes l0 with
@@ -79,8 +89,9 @@ let () =
      | [id; "gdlL"; nsub; prog; advs; input] ->
        (* the loop trace: per executed pass  /maxloop,mu0:  then  mu,lc,reset,live;  per iteration (the iteration in which the machine died is not reported: the engine returns before its hook) *)
        (try
-         let passes = List.map parse_pass (split '/' prog) in
          let at = Array.of_list (List.map int_of_string (split ',' advs)) in
+         nglyphs := Array.length at;
+         let passes = List.map parse_pass (split '/' prog) in
          let adv g = let i = int_of_n g in z_of_int (if i < Array.length at then at.(i) else 0) in
          let l0 = List.map (fun x -> let g = n_of_int (int_of_string x) in mkslot g (adv g) Z0) (List.filter (fun x -> x <> "") (split ',' input)) in
          let rec nat_to_int = function O -> 0 | S n -> 1 + nat_to_int n in
